@@ -168,7 +168,7 @@ def pl_frac(ctx, block):
         U = [[Fraction(x, SCALE) for x in row] for row in ul[i]]
         Z = None if pl_ is None else Fraction(pl_[i], SCALE)
         exp = pl_fraction(S, U, cost, Z, first)
-        if Fraction(outl[i]) != exp:
+        if outl[i] != outl[i] or abs(outl[i]) == float("inf") or Fraction(outl[i]) != exp:
             mini = {k: block[k] for k in ("H", "T", "cost", "first", "dtype", "fn")}
             mini["cases"] = [{"spot": sl[i], "unit": ul[i], "payoff": None if pl_ is None else pl_[i]}]
             ctx.violation("functional." + block["fn"], _classify(None, None, block) + "_frac",
@@ -416,9 +416,10 @@ def _hedger_round(ctx, block, hedger, deriv, hedge, exact, r):
         tol_pf = 0 if exact else 8 * H * T * eps * (scale - abs(zl[i]))
         for name, got, exp in (("compute_pl", pll[i], e_pl), ("compute_portfolio", pfl[i], e_pf)):
             tol_n = tol if name == "compute_pl" else tol_pf
-            ok = (Fraction(got) == exp) if tol == 0 else abs(Fraction(got) - exp) <= tol_n
-            if got != got:
-                ok = False
+            if got != got or got in (float("inf"), float("-inf")):
+                ok = False  # NaN / inf is never the wealth identity (seeded C01-27: 0 * inf on a zero quote)
+            else:
+                ok = (Fraction(got) == exp) if tol == 0 else abs(Fraction(got) - exp) <= tol_n
             if not ok:
                 mini = dict(block)
                 if r == 0 and not block.get("swap"):
@@ -512,6 +513,9 @@ def run(ctx):
               (2, 3, As2, Au2), (3, 2, As2, Au2)]
     # negative prices (rates, swaps, spreads): |position change| * price is NOT |position change * price|
     shapes += [(1, 2, [8, -4, 12], Au3), (1, 3, [8, -4], Au3), (2, 2, [8, -4], Au2)]
+    # a quote of exactly zero at the first, an inner and the last step (an option listed at intrinsic value, a
+    # rate at 0): gains written as value * return are 0 * inf there (seeded C01-27)
+    shapes += [(1, 2, [0, 8, -4], Au3), (1, 3, [8, 0], Au3), (2, 2, [0, 12], Au2)]
     if ctx.thorough:
         shapes += [(1, 4, As3 + [extra], Au3 + [extra_u]), (1, 5, As3, Au3), (2, 4, As2, Au2),
                    (3, 3, As2, Au2), (2, 3, As3, Au3), (4, 2, As2, Au2), (1, 8, As2, Au2)]
